@@ -74,7 +74,7 @@ static int norm_words(const vd_result *res, const vfsa *truth, int *labels, char
 /* ============================= C01 ============================= */
 static void mon_c01(ctx *c, int final, const vd_result *res)
 {
-    int labels[256], n; char joined[1200];
+    int labels[256], n; char joined[4096];
     n = norm_words(res, &c->g->truth, labels, joined, sizeof(joined), 256);
     if (n > 256) { vh_inconc("more than 256 words in a result"); return; }
     if (final) {
@@ -100,7 +100,7 @@ static void mon_c01(ctx *c, int final, const vd_result *res)
 /* ============================= C03 ============================= */
 static void mon_c03(ctx *c, int final, const vd_result *res, long frames_searched)
 {
-    int i, prev_ef = -1, nreal = 0; long sum = 0; char joined[1200]; int labels[4];
+    int i, prev_ef = -1, nreal = 0; long sum = 0; char joined[4096]; int labels[4];
     const char *fin = final ? "final" : "partial";
     for (i = 0; i < res->nseg; ++i) {
         const vd_seg *s = &res->seg[i];
@@ -395,7 +395,7 @@ static void mon_c12(ctx *c, lgraph *g)
         hyp_iter_t *nb; int n = 0; int32 prev = 0; int limit = vh_tier ? 200 : 60;
         vh_ctx("decoder_nbest");
         for (nb = decoder_nbest(c->d); nb; nb = hyp_iter_next(nb)) {
-            int32 sc = 0; const char *h = hyp_iter_hyp(nb, &sc); seg_iter_t *si; char joined[1200]; size_t o = 0; int ok = 1, first = 1, any, u, pef = -1; char why[260] = "";
+            int32 sc = 0; const char *h = hyp_iter_hyp(nb, &sc); seg_iter_t *si; char joined[4096]; size_t o = 0; int ok = 1, first = 1, any, u, pef = -1; char why[260] = "";
             char *cur = (char *)calloc((size_t)g->nn + 1, 1), *nxt = (char *)calloc((size_t)g->nn + 1, 1);
             if (n > 0 && sc > prev) { vh_viol("nbest_not_ordered", "N-best entry %d scores %d after an entry scoring %d", n, sc, prev); hyp_iter_free(nb); free(cur); free(nxt); break; }
             prev = sc; joined[0] = 0;
@@ -432,11 +432,30 @@ static void mon_c12(ctx *c, lgraph *g)
 /* ============================= C14 ============================= */
 static int approx_time(double got, double want) { return fabs(got - want) <= 0.0005 + 1e-9 * fabs(want) + 1e-12; }
 
+/* a JSON string must be valid UTF-8: bytes of the word that are not may arrive as U+FFFD or as U+00XX */
+static int same_modulo_invalid_utf8(const char *got, const char *want)
+{
+    const unsigned char *g = (const unsigned char *)got, *w = (const unsigned char *)want;
+    while (*w) {
+        int n = (*w < 0x80) ? 1 : (*w >= 0xc2 && *w <= 0xdf) ? 2 : (*w >= 0xe0 && *w <= 0xef) ? 3 : (*w >= 0xf0 && *w <= 0xf4) ? 4 : 0, i;
+        for (i = 1; i < n; ++i) if ((w[i] & 0xc0) != 0x80) n = 0;
+        if (n && ((w[0] == 0xe0 && w[1] < 0xa0) || (w[0] == 0xed && w[1] > 0x9f) || (w[0] == 0xf0 && w[1] < 0x90) || (w[0] == 0xf4 && w[1] > 0x8f))) n = 0;
+        if (n) { if (memcmp(g, w, (size_t)n)) return 0; g += n; w += n; }
+        else {
+            if (g[0] == 0xef && g[1] == 0xbf && g[2] == 0xbd) g += 3;                                   /* U+FFFD */
+            else if (g[0] == (0xc0 | (*w >> 6)) && g[1] == (0x80 | (*w & 0x3f))) g += 2;              /* U+00XX */
+            else return 0;
+            ++w;
+        }
+    }
+    return *g == 0;
+}
+
 static void json_entry_check(const vj_val *e, const char *want_t, double want_b, double want_d, double want_p, int check_p, const char *where)
 {
     const vj_val *t = vj_get(e, "t"), *b = vj_get(e, "b"), *dd = vj_get(e, "d"), *p = vj_get(e, "p");
     if (!t || t->type != VJ_STR || !b || b->type != VJ_NUM || !dd || dd->type != VJ_NUM || !p || p->type != VJ_NUM) { vh_viol("json_fields_missing", "%s: entry lacks t/b/d/p fields of the right types", where); return; }
-    if (strcmp(t->s, want_t)) vh_viol("json_text_mismatch", "%s: \"t\" is \"%s\" but the iterator says \"%s\"", where, t->s, want_t);
+    if (strcmp(t->s, want_t) && !same_modulo_invalid_utf8(t->s, want_t)) vh_viol("json_text_mismatch", "%s: \"t\" is \"%s\" but the iterator says \"%s\"", where, t->s, want_t);
     if (!approx_time(b->num, want_b)) vh_viol("json_start_mismatch", "%s (%s): \"b\" %.6f, iterator gives %.6f", where, want_t, b->num, want_b);
     if (!approx_time(dd->num, want_d)) vh_viol("json_duration_mismatch", "%s (%s): \"d\" %.6f, iterator gives %.6f", where, want_t, dd->num, want_d);
     if (check_p && fabs(p->num - want_p) > 0.0005 + 1e-9) vh_viol("json_prob_mismatch", "%s (%s): \"p\" %.6f, iterator gives %.6f", where, want_t, p->num, want_p);
@@ -518,6 +537,26 @@ static void mon_c14(ctx *c, int final, const vd_result *res)
 }
 
 /* ============================= driver ============================= */
+/* C14: words with hostile spellings, added through decoder_add_word and used in an alignment text */
+static const char *hostile_words[] = { "he\"llo", "back\\slash", "ctl\x01char", "caf\xc3\xa9", "bad\xff\xfeutf", "quote\"", "\"", "\\", "a\\\"b", "tab\x0bv",
+    "wwwwwwwwwwwwwwwwwwwwwwwwwwwwwwwwwwwwwwwwwwwwwwwwwwwwwwwwwwwwwwwwwwwwwwwwwwwwwwwwwwwwwwwwwwwwwwwwwwwwwwwwwwwwwwwwwwwwwwwwwwwwwwwwwwwwwwwwwwwwwwwwwwwwwwwwwwwwwwwwwwwwwwwwwwwwwwwwwwwwwwwwwwwwwwwwwwwwwwwwwwwwwwwwwwwwwwwwwwwwwwwwwwwwwwwwwwwwwwwwwwwwwwwwwwwwwwwwwwwwwwwwwwwwwwwwwwwwwwwwwwwwwwwwwwwwwwwwwwwwwwwwwwwwww" };
+#define NHOSTILE ((int)(sizeof(hostile_words) / sizeof(hostile_words[0])))
+static void make_hostile_gram(ctx *c, vh_rng *r, vd_gram *g)
+{
+    const char *tr_en[] = { "go", "forward", "ten", "meters" }, *tr_fr[] = { "avance", "de", "dix", "m\xc3\xa8tres" };
+    const char **tr = c->cfg.lang == VD_FR ? tr_fr : tr_en; const char *pron = c->cfg.lang == VD_FR ? "a v an s" : "HH AH L OW";
+    int i, n = 0, k; const char *seq[12];
+    /* pronunciation of the first transcript word, from the harness' own copy of the lexicon */
+    { const vd_lex *lx = vd_lexicon(c->cfg.lang); int li = vd_lex_find(lx, tr[0]); if (li >= 0) pron = lx->pron[li]; }
+    for (i = 0; i < NHOSTILE; ++i) if (decoder_lookup_word(c->d, hostile_words[i]) == NULL) { vh_ctx("decoder_add_word"); decoder_add_word(c->d, hostile_words[i], pron, i == NHOSTILE - 1); }
+    for (i = 0; i < 4; ++i) { if (vh_chance(r, 0.5) && n < 10) seq[n++] = hostile_words[vh_below(r, NHOSTILE)]; if (vh_chance(r, 0.8)) seq[n++] = tr[i]; }
+    if (n == 0) seq[n++] = hostile_words[0];
+    memset(g, 0, sizeof(*g)); g->kind = VG_ALIGN_TEXT; g->lang = c->cfg.lang; vh_sb_init(&g->text);
+    vfsa_init(&g->truth, n + 1, 0, n);
+    for (k = 0; k < n; ++k) { vh_sb_printf(&g->text, "%s%s", k ? " " : "", seq[k]); vfsa_add(&g->truth, k, k + 1, vfsa_label(&g->truth, seq[k]), 0); }
+    snprintf(g->desc, sizeof(g->desc), "align text with hostile spellings, %d words", n);
+}
+
 static long g_frames_so_far;
 static void observe(ctx *c, int final, long frames_searched)
 {
@@ -571,7 +610,8 @@ static void run(long i, vh_rng *r)
     decoder_set_cmn(c.d, "40,3,-1");   /* every case starts from the same channel-normalisation state */
     vd_search_random(r, &c.sp, beam_mode);
     vd_search_apply(c.d, &c.sp);
-    vd_gram_random(r, lang, gkind, MON == M_C01 ? 0.35 : 0.6, &g);
+    if (MON == M_C14 && vh_chance(r, 0.3)) { make_hostile_gram(&c, r, &g); vh_count("hostile_spelling_scenarios", 1); }
+    else vd_gram_random(r, lang, gkind, MON == M_C01 ? 0.35 : 0.6, &g);
     c.g = &g;
     vd_audio_make(r, lang, (MON & (M_C01 | M_C03)) ? -1 : 0, (MON & (M_C11 | M_C12)) ? (c.sp.beam_mode == 2 ? 8000 : 60000) : 0, &a);
     if (c.cfg.samprate == 8000) { long j; for (j = 0; j < a.n / 2; ++j) a.s[j] = (int16_t)(((long)a.s[2 * j] + a.s[2 * j + 1]) / 2); a.n /= 2; a.samprate = 8000; }
